@@ -144,7 +144,20 @@ func (n *Node) NewWallet(name string, key types.PrivateKey) (*Wallet, error) {
 	return pw, pw.sync()
 }
 
+// dropBroadcasted forgets the wallet store's broadcast sets. The in-repo
+// EphemeralWalletStore compares a new set against every stored one (hashing
+// each), which is quadratic over a long run; the sets are only used for
+// re-broadcasting, which the lab disables.
+func (w *Wallet) dropBroadcasted() {
+	sets, _ := w.Store.BroadcastedSets()
+	sets = append([]wallet.BroadcastedSet(nil), sets...)
+	for i := len(sets) - 1; i >= 0; i-- {
+		w.Store.RemoveBroadcastedSet(sets[i])
+	}
+}
+
 func (w *Wallet) sync() error {
+	w.dropBroadcasted()
 	for {
 		tip, err := w.Store.Tip()
 		if err != nil {
